@@ -535,14 +535,20 @@ func (env *SpecEnv) typedFact(v Val) {
 		env.vc.assume("true", f)
 	}
 	// a reference read from the heap of state st is allocated in st (same well-formedness fact as for loads in code)
-	if env.st != nil && env.st.top != "" {
+	if _, isTP := isTypeParam(v.T); env.st != nil && env.st.top != "" && !isTP {
 		switch v.T.Underlying().(type) {
 		case *types.Pointer, *types.Map, *types.Chan:
-			env.vc.assume(env.st.guard, fmt.Sprintf("(<= (base %s) %s)", v.S, env.st.top))
+			if v.Sort == sInt {
+				env.vc.assume(env.st.guard, fmt.Sprintf("(<= (base %s) %s)", v.S, env.st.top))
+			}
 		case *types.Slice:
-			env.vc.assume(env.st.guard, fmt.Sprintf("(<= (base (sl_arr %s)) %s)", v.S, env.st.top))
+			if v.Sort == sSlice {
+				env.vc.assume(env.st.guard, fmt.Sprintf("(<= (base (sl_arr %s)) %s)", v.S, env.st.top))
+			}
 		case *types.Interface:
-			env.vc.assume(env.st.guard, fmt.Sprintf("(<= (base (ival %s)) %s)", v.S, env.st.top))
+			if v.Sort == sIface {
+				env.vc.assume(env.st.guard, fmt.Sprintf("(<= (base (ival %s)) %s)", v.S, env.st.top))
+			}
 		}
 	}
 }
